@@ -208,6 +208,9 @@ fn stream_classes(case: &Case, run: &StreamRun, expect: &[M], ctx: &mut Ctx) -> 
     if !case.params.is_empty() {
         ctx.class("cuts-around-matches");
     }
+    if case.spare.is_none() && case.haystack.len() > 65536 && run.rolls > 1 {
+        ctx.class("rolled-at-default-capacity");
+    }
     if case.cfg.casei {
         ctx.class("casei");
     }
@@ -304,8 +307,23 @@ fn stream_base(prop: &'static str, tier: Tier) -> BoxedStrategy<Case> {
     };
     let big = if tier == Tier::Thorough { 3 } else { 2 };
     let cases = Union::new_weighted(vec![(5, base(1)), (4, base(2)), (1, base(big))]);
-    (cases, sched_strategy())
-        .prop_map(|(mut case, sched)| {
+    // ~1.5% of the cases: a stream longer than the DEFAULT 64 KiB buffer with a
+    // match straddling the refill boundary, searched without the capacity hook
+    let bigmode = prop_oneof![
+        197 => Just(None),
+        3 => (any::<u16>(), any::<u16>(), any::<u8>(), any::<u16>(), proptest::sample::select(vec![usize::MAX, usize::MAX, 65536, 30000, 4096, 65535])).prop_map(Some),
+    ];
+    (cases, sched_strategy(), bigmode)
+        .prop_map(|(mut case, sched, bigmode)| {
+            if let Some((which, back, fill, tail, read)) = bigmode {
+                case.patterns.truncate(6);
+                case.haystack = gen::big_stream(&case.patterns, which, back, fill, tail);
+                case.span = (0, case.haystack.len());
+                case.reads = vec![read];
+                case.spare = None;
+                case.sub = format!("{}+big-stream", case.sub);
+                return case;
+            }
             case.reads = sched.sizes.clone();
             case.spare = sched.spare;
             // cuts derived from the expected matches: reads end at
@@ -345,7 +363,7 @@ pub const C07: PropDef = PropDef {
     id: "C07",
     rule: "standard-kind searchers (all 7 engines, prefilter on/off, case-insensitive mix) over non-empty pattern lists; streams of 0..400 bytes (thorough 4K) built from planted/partial patterns; \
 a generated read schedule: cycled read sizes from {1, 2, 3..9, 10..40, 41..300, 'fill the whole free buffer'} plus cut offsets derived from the expected matches (reads ending at start/end -1/0/+1 of a match and strictly inside it); \
-internal buffer capacity = longest pattern + spare with spare in {1,2,3,7,16,64} via the cfg(aho_corasick_verif) hook, or the default 64 KiB. \
+internal buffer capacity = longest pattern + spare with spare in {1,2,3,7,16,64} via the cfg(aho_corasick_verif) hook, or the default 64 KiB; about 1.5% of the cases are streams of 64 KiB + up to 3 KB with a match straddling offset 65536, searched at the default capacity. \
 Oracle: items of stream_find_iter (all Ok) == reference model iterator on the concatenation == in-memory find_iter, absolute offsets; the iterator ends only after the reader returned Ok(0). \
 Non-trivial = the buffer rolled at least once (hook counter) and at least one match spans two reads. Distinct = distinct case fingerprint.",
     assumptions: &["the buffer-capacity hook only changes Buffer::new's capacity (capacity >= longest pattern + 1, the domain stated in the property)", "reference model"],
@@ -361,6 +379,7 @@ Non-trivial = the buffer rolled at least once (hook counter) and at least one ma
         ("spare:default", 5_000),
         ("single-byte-reads", 20_000),
         ("cuts-around-matches", 20_000),
+        ("rolled-at-default-capacity", 1_000),
     ],
 };
 
